@@ -60,8 +60,87 @@ def init_obj(shape_name, init_bits):
     return init_bits
 
 
+def build_inreg(cfg):
+    """The action as a field of a real csr.Register, between a reserved field below and an RW field above:
+    'a field's data output always equals what a bus read of it returns' is checked on the register's
+    element port (the bus-side view of the field)."""
+    from amaranth_soc import csr
+    from amaranth_soc.csr import action
+    cls = getattr(action, cfg["action"])
+    shape = SHAPES[cfg["shape"]]()
+    reg = csr.Register({"lo": csr.Field(action.ResRAW0, 1),
+                        "f": csr.Field(cls, shape, init=init_obj(cfg["shape"], cfg["init"])),
+                        "wo": csr.Field(action.W, 1),
+                        "hi": csr.Field(action.RW, 2, init=1)}, access="rw")
+    m = Module()
+    m.submodules.reg = reg
+    el = reg.element
+    inputs = [("w_stb", el.w_stb), ("w_data", el.w_data), ("r_stb", el.r_stb)]
+    a = cfg["action"]
+    if a == "RW1C":
+        inputs.append(("set", reg.f.f.set))
+    if a == "RW1S":
+        inputs.append(("clear", reg.f.f.clear))
+    probes = [("e_r_data", el.r_data), ("data", reg.f.f.data), ("hi_data", reg.f.hi.data)]
+    return Harness(m, inputs, probes, dict(width=el.width))
+
+
+class InRegObserver:
+    """obs = (storage of f, storage of hi)"""
+    def __init__(self, cfg, h, comp):
+        self.a = cfg["action"]
+        self.w = shape_width(cfg["shape"])
+        self.mask = (1 << self.w) - 1
+        self.init = (cfg["init"] & self.mask, 1)
+        self.ii, self.pi = comp.in_index, comp.probe_index
+        self.total = 1 + self.w + 1 + 2
+        self.meta_err = None if h.meta["width"] == self.total else f"register width {h.meta['width']}, expected {self.total}"
+        doms = []
+        for name, w in zip(comp.in_names, comp.in_widths):
+            if name == "w_data":
+                # all values of the field's own bits x the neighbours' bits 0/1 patterns
+                vals = set()
+                for fv in (range(1 << self.w) if self.w <= 3 else [t & self.mask for t in WIDE_TOKENS]):
+                    for nb in (0, (1 << self.total) - 1, 0b01 << (self.total - 2)):
+                        vals.add((nb & ~(self.mask << 1)) | (fv << 1))
+                doms.append(sorted(vals))
+            elif w <= 3:
+                doms.append(range(1 << w))
+            else:
+                doms.append(sorted({t & ((1 << w) - 1) for t in WIDE_TOKENS}))
+        self._letters = list(itertools.product(*doms))
+
+    def letters(self, obs):
+        return self._letters
+
+    def observe(self, obs, letter, outs):
+        if self.meta_err:
+            return dict(msg=self.meta_err, signature=dict(kind="metadata")), obs
+        s, hi = obs
+        ii, pi, a, mask = self.ii, self.pi, self.a, self.mask
+        w_stb, w_data = letter[ii["w_stb"]], letter[ii["w_data"]]
+        exp_bus = (s << 1) | (hi << (1 + self.w + 1))
+        if outs[pi["e_r_data"]] != exp_bus:
+            return dict(msg=f"bus read of the register returns {outs[pi['e_r_data']]:#x}, expected {exp_bus:#x} (field storage {s:#x}, hi {hi}; reserved and write-only bits read zero)",
+                        signature=dict(kind="oracle", action=a, probe="bus_read")), obs
+        if outs[pi["data"]] != s or outs[pi["hi_data"]] != hi:
+            return dict(msg=f"data outputs {outs[pi['data']]:#x}/{outs[pi['hi_data']]:#x} differ from what the bus read returns ({s:#x}/{hi:#x})",
+                        signature=dict(kind="oracle", action=a, probe="data_vs_bus")), obs
+        fw = (w_data >> 1) & mask
+        if a == "RW":
+            ns = fw if w_stb else s
+        elif a == "RW1C":
+            ns = ((s & ~(fw if w_stb else 0)) | letter[ii["set"]]) & mask
+        else:
+            ns = ((s & ~letter[ii["clear"]]) | (fw if w_stb else 0)) & mask
+        nhi = ((w_data >> (1 + self.w + 1)) & 3) if w_stb else hi
+        return None, (ns, nhi)
+
+
 def build(cfg):
     from amaranth_soc.csr import action
+    if cfg.get("inreg"):
+        return build_inreg(cfg)
     cls = getattr(action, cfg["action"])
     shape = SHAPES[cfg["shape"]]()
     if cfg["action"] in ("RW", "RW1C", "RW1S"):
@@ -155,6 +234,9 @@ def configs(tier):
                 out.append(dict(action=a, shape=sh, init=init & ((1 << shape_width(sh)) - 1)))
     for a in stor:
         out.append(dict(action=a, shape="s2", init=1, elab_twice=True))
+        # the same actions as fields of a real register (bus-side view), signed and unsigned, negative inits
+        for sh, init in (("u2", 1), ("s2", 2), ("s3", 5), ("enum2", 3), ("u3", 0)) + ((("s8", 0x80), ("u8", 0x5A)) if tier == "thorough" else (("s5", 0x11),)):
+            out.append(dict(action=a, shape=sh, init=init, inreg=True))
     for a in ("R", "W", "ResRAW0", "ResRAWL", "ResR0WA", "ResR0W0"):
         for sh in ["u1", "u3", "s2", "enum2", "u0"] + (["flag3", "struct3"] if tier == "thorough" else []):
             out.append(dict(action=a, shape=sh))
@@ -162,12 +244,13 @@ def configs(tier):
 
 
 def run_config(cfg, tier, seed):
-    return explore_hw(build, Observer, cfg, tier, seed)
+    return explore_hw(build, InRegObserver if cfg.get("inreg") else Observer, cfg, tier, seed)
 
 
 def replay(data):
     from ..hw import rederive
-    err, cyc = rederive(build, Observer, data["cfg"], data["trace"], None)
+    cfg = data["cfg"]
+    err, cyc = rederive(build, InRegObserver if cfg.get("inreg") else Observer, cfg, data["trace"], None)
     return err, cyc
 
 
